@@ -50,6 +50,9 @@ func (e *Engine) assumeInputRefs(v Val, t types.Type) {
 
 // buildVC translates the function of contract c and generates its obligations.
 func buildVC(w *World, c *Contract) (vc *FuncVC) {
+	if c.Broken != "" {
+		return &FuncVC{Contract: c, Err: fmt.Errorf("contract does not fit the code: %s", c.Broken)}
+	}
 	fn := w.lookupFunc(c.Pkg, c.Func)
 	vc = &FuncVC{Contract: c, Fn: fn}
 	if fn == nil {
